@@ -1,70 +1,45 @@
-// Copyright 2013 The Go Authors. All rights reserved.
-// Use of this source code is governed by a BSD-style
-// license that can be found in the LICENSE file.
-
-package interp
-
-// Values
-//
-// All interpreter values are "boxed" in the empty interface, value.
-// The range of possible dynamic types within value are:
-//
-// - bool
-// - numbers (all built-in int/float/complex types are distinguished)
-// - string
-// - map[value]value --- maps for which  usesBuiltinMap(keyType)
-//   *hashmap        --- maps for which !usesBuiltinMap(keyType)
-// - chan value
-// - []value --- slices
-// - iface --- interfaces.
-// - structure --- structs.  Fields are ordered and accessed by numeric indices.
-// - array --- arrays.
-// - *value --- pointers.  Careful: *value is a distinct type from *array etc.
-// - *ssa.Function \
-//   *ssa.Builtin   } --- functions.  A nil 'func' is always of type *ssa.Function.
-//   *closure      /
-// - tuple --- as returned by Return, Next, "value,ok" modes, etc.
-// - iter --- iterators from 'range' over map or string.
-// - bad --- a poison pill for locals that have gone out of scope.
-// - rtype -- the interpreter's concrete implementation of reflect.Type
-// - **deferred -- the address of a frame's defer stack for a Defer._Stack.
-//
-// Note that nil is not on this list.
-//
-// Pay close attention to whether or not the dynamic type is a pointer.
-// The compiler cannot help you since value is an empty interface.
+// Package symgo is a symbolic interpreter for go/ssa, derived from
+// golang.org/x/tools/go/ssa/interp (BSD licence, The Go Authors). Scalars may
+// be SMT bit-vector terms; control forks on symbolic conditions through a
+// decision trail (stateless dynamic symbolic execution).
+package symgo
 
 import (
 	"bytes"
 	"fmt"
 	"go/types"
-	"io"
-	"reflect"
 	"strings"
 	"unsafe"
 
 	"golang.org/x/tools/go/ssa"
-	"golang.org/x/tools/go/types/typeutil"
+
+	"verif/engine/smt"
 )
 
+// value is a boxed interpreter value. Dynamic types:
+//
+//   bool, int*, uint*, uintptr, float*, complex*, string  -- concrete scalars
+//   symv        -- symbolic bool / integer (SMT term)
+//   sstr        -- string with possibly-symbolic bytes (concrete length)
+//   []value     -- slice
+//   array, structure, tuple
+//   *value      -- pointer
+//   iface       -- interface value
+//   *omap       -- map (ordered association list)
+//   *vchan      -- channel
+//   *ssa.Function, *ssa.Builtin, *closure -- functions
+//   rtype       -- reflect.Type implementation
+//   rvalue      -- reflect.Value
+//   *native     -- opaque host object (compiled regexp, …)
 type value any
 
 type tuple []value
-
 type array []value
-
-type iface struct {
-	t types.Type // never an "untyped" type
-	v value
-}
-
 type structure []value
 
-// For map, array, *array, slice, string or channel.
-type iter interface {
-	// next returns a Tuple (key, value, ok).
-	// key and value are unaliased, e.g. copies of the sequence element.
-	next() tuple
+type iface struct {
+	t types.Type
+	v value
 }
 
 type closure struct {
@@ -74,183 +49,86 @@ type closure struct {
 
 type bad struct{}
 
-type rtype struct {
-	t types.Type
+// symv is a symbolic scalar: t has the bit width of the Go kind k (Bool: W=0).
+type symv struct {
+	t *smt.Term
+	k types.BasicKind
 }
 
-// Hash functions and equivalence relation:
+// sstr is an immutable string whose bytes may be symbolic (uint8 or symv{Uint8}).
+type sstr struct {
+	b []value
+}
 
-// hashString computes the FNV hash of s.
-func hashString(s string) int {
-	var h uint32
-	for i := 0; i < len(s); i++ {
-		h ^= uint32(s[i])
-		h *= 16777619
+// native wraps a host-side object that interpreted code only passes around.
+type native struct {
+	tag string
+	obj any
+}
+
+type iter interface {
+	next(m *Machine) tuple
+}
+
+func kindWidth(k types.BasicKind) int {
+	switch k {
+	case types.Bool:
+		return 0
+	case types.Int8, types.Uint8:
+		return 8
+	case types.Int16, types.Uint16:
+		return 16
+	case types.Int32, types.Uint32:
+		return 32
+	case types.Int, types.Int64, types.Uint, types.Uint64, types.Uintptr:
+		return 64
 	}
-	return int(h)
+	panic(fmt.Sprintf("kindWidth: %v", k))
 }
 
-var hasher = typeutil.MakeHasher()
-
-// hashType returns a hash for t such that
-// types.Identical(x, y) => hashType(x) == hashType(y).
-func hashType(t types.Type) int {
-	return int(hasher.Hash(t))
-}
-
-// usesBuiltinMap returns true if the built-in hash function and
-// equivalence relation for type t are consistent with those of the
-// interpreter's representation of type t.  Such types are: all basic
-// types (bool, numbers, string), pointers and channels.
-//
-// usesBuiltinMap returns false for types that require a custom map
-// implementation: interfaces, arrays and structs.
-//
-// Panic ensues if t is an invalid map key type: function, map or slice.
-func usesBuiltinMap(t types.Type) bool {
-	switch t := t.(type) {
-	case *types.Basic, *types.Chan, *types.Pointer:
+func kindSigned(k types.BasicKind) bool {
+	switch k {
+	case types.Int, types.Int8, types.Int16, types.Int32, types.Int64:
 		return true
-	case *types.Named, *types.Alias:
-		return usesBuiltinMap(t.Underlying())
-	case *types.Interface, *types.Array, *types.Struct:
-		return false
 	}
-	panic(fmt.Sprintf("invalid map key type: %T", t))
+	return false
 }
 
-func (x array) eq(t types.Type, _y any) bool {
-	y := _y.(array)
-	tElt := t.Underlying().(*types.Array).Elem()
-	for i, xi := range x {
-		if !equals(tElt, xi, y[i]) {
-			return false
-		}
-	}
-	return true
-}
-
-func (x array) hash(t types.Type) int {
-	h := 0
-	tElt := t.Underlying().(*types.Array).Elem()
-	for _, xi := range x {
-		h += hash(t, tElt, xi)
-	}
-	return h
-}
-
-func (x structure) eq(t types.Type, _y any) bool {
-	y := _y.(structure)
-	tStruct := t.Underlying().(*types.Struct)
-	for i, n := 0, tStruct.NumFields(); i < n; i++ {
-		if f := tStruct.Field(i); !f.Anonymous() {
-			if !equals(f.Type(), x[i], y[i]) {
-				return false
-			}
-		}
-	}
-	return true
-}
-
-func (x structure) hash(t types.Type) int {
-	tStruct := t.Underlying().(*types.Struct)
-	h := 0
-	for i, n := 0, tStruct.NumFields(); i < n; i++ {
-		if f := tStruct.Field(i); !f.Anonymous() {
-			h += hash(t, f.Type(), x[i])
-		}
-	}
-	return h
-}
-
-// nil-tolerant variant of types.Identical.
-func sameType(x, y types.Type) bool {
-	if x == nil {
-		return y == nil
-	}
-	return y != nil && types.Identical(x, y)
-}
-
-func (x iface) eq(t types.Type, _y any) bool {
-	y := _y.(iface)
-	return sameType(x.t, y.t) && (x.t == nil || equals(x.t, x.v, y.v))
-}
-
-func (x iface) hash(outer types.Type) int {
-	return hashType(x.t)*8581 + hash(outer, x.t, x.v)
-}
-
-func (x rtype) hash(_ types.Type) int {
-	return hashType(x.t)
-}
-
-func (x rtype) eq(_ types.Type, y any) bool {
-	return types.Identical(x.t, y.(rtype).t)
-}
-
-// equals returns true iff x and y are equal according to Go's
-// linguistic equivalence relation for type t.
-// In a well-typed program, the dynamic types of x and y are
-// guaranteed equal.
-func equals(t types.Type, x, y value) bool {
+// kindOf returns the basic kind of a concrete scalar value (ok=false if not an integer/bool).
+func kindOf(x value) (types.BasicKind, bool) {
 	switch x := x.(type) {
 	case bool:
-		return x == y.(bool)
+		return types.Bool, true
 	case int:
-		return x == y.(int)
+		return types.Int, true
 	case int8:
-		return x == y.(int8)
+		return types.Int8, true
 	case int16:
-		return x == y.(int16)
+		return types.Int16, true
 	case int32:
-		return x == y.(int32)
+		return types.Int32, true
 	case int64:
-		return x == y.(int64)
+		return types.Int64, true
 	case uint:
-		return x == y.(uint)
+		return types.Uint, true
 	case uint8:
-		return x == y.(uint8)
+		return types.Uint8, true
 	case uint16:
-		return x == y.(uint16)
+		return types.Uint16, true
 	case uint32:
-		return x == y.(uint32)
+		return types.Uint32, true
 	case uint64:
-		return x == y.(uint64)
+		return types.Uint64, true
 	case uintptr:
-		return x == y.(uintptr)
-	case float32:
-		return x == y.(float32)
-	case float64:
-		return x == y.(float64)
-	case complex64:
-		return x == y.(complex64)
-	case complex128:
-		return x == y.(complex128)
-	case string:
-		return x == y.(string)
-	case *value:
-		return x == y.(*value)
-	case chan value:
-		return x == y.(chan value)
-	case structure:
-		return x.eq(t, y)
-	case array:
-		return x.eq(t, y)
-	case iface:
-		return x.eq(t, y)
-	case rtype:
-		return x.eq(t, y)
+		return types.Uintptr, true
+	case symv:
+		return x.k, true
 	}
-
-	// Since map, func and slice don't support comparison, this
-	// case is only reachable if one of x or y is literally nil
-	// (handled in eqnil) or via interface{} values.
-	panic(fmt.Sprintf("comparing uncomparable type %s", t))
+	return 0, false
 }
 
-// Returns an integer hash of x such that equals(x, y) => hash(x) == hash(y).
-// The outer type is used only for the "unhashable" panic message.
-func hash(outer, t types.Type, x value) int {
+// bitsOf returns the two's-complement bits of a concrete integer/bool.
+func bitsOf(x value) uint64 {
 	switch x := x.(type) {
 	case bool:
 		if x {
@@ -258,263 +136,439 @@ func hash(outer, t types.Type, x value) int {
 		}
 		return 0
 	case int:
-		return x
+		return uint64(x)
 	case int8:
-		return int(x)
+		return uint64(x)
 	case int16:
-		return int(x)
+		return uint64(x)
 	case int32:
-		return int(x)
+		return uint64(x)
 	case int64:
-		return int(x)
+		return uint64(x)
 	case uint:
-		return int(x)
+		return uint64(x)
 	case uint8:
-		return int(x)
+		return uint64(x)
 	case uint16:
-		return int(x)
+		return uint64(x)
 	case uint32:
-		return int(x)
+		return uint64(x)
 	case uint64:
-		return int(x)
+		return x
 	case uintptr:
-		return int(x)
-	case float32:
-		return int(x)
-	case float64:
-		return int(x)
-	case complex64:
-		return int(real(x))
-	case complex128:
-		return int(real(x))
+		return uint64(x)
+	}
+	panic(fmt.Sprintf("bitsOf: %T", x))
+}
+
+// fromBits builds the concrete scalar of kind k from its bits.
+func fromBits(k types.BasicKind, b uint64) value {
+	switch k {
+	case types.Bool:
+		return b != 0
+	case types.Int:
+		return int(b)
+	case types.Int8:
+		return int8(b)
+	case types.Int16:
+		return int16(b)
+	case types.Int32:
+		return int32(b)
+	case types.Int64:
+		return int64(b)
+	case types.Uint:
+		return uint(b)
+	case types.Uint8:
+		return uint8(b)
+	case types.Uint16:
+		return uint16(b)
+	case types.Uint32:
+		return uint32(b)
+	case types.Uint64:
+		return b
+	case types.Uintptr:
+		return uintptr(b)
+	}
+	panic(fmt.Sprintf("fromBits: %v", k))
+}
+
+func isSym(x value) bool {
+	_, ok := x.(symv)
+	return ok
+}
+
+// termOf returns the SMT term of a scalar (concrete or symbolic).
+func (m *Machine) termOf(x value) *smt.Term {
+	if s, ok := x.(symv); ok {
+		return s.t
+	}
+	k, ok := kindOf(x)
+	if !ok {
+		panic(engineFault{fmt.Sprintf("termOf: %T", x)})
+	}
+	if k == types.Bool {
+		return m.ctx.Bool(x.(bool))
+	}
+	return m.ctx.BV(bitsOf(x), kindWidth(k))
+}
+
+// mkScalar returns a concrete value if t is constant, else a symv.
+func mkScalar(t *smt.Term, k types.BasicKind) value {
+	if t.IsConst() {
+		return fromBits(k, t.Val)
+	}
+	return symv{t, k}
+}
+
+// ----------------------------------------------------------------------------
+// strings
+
+func strLen(x value) int {
+	switch x := x.(type) {
 	case string:
-		return hashString(x)
-	case *value:
-		return int(uintptr(unsafe.Pointer(x)))
-	case chan value:
-		return int(uintptr(reflect.ValueOf(x).Pointer()))
+		return len(x)
+	case sstr:
+		return len(x.b)
+	}
+	panic(engineFault{fmt.Sprintf("strLen: %T", x)})
+}
+
+func strBytes(x value) []value {
+	switch x := x.(type) {
+	case string:
+		out := make([]value, len(x))
+		for i := 0; i < len(x); i++ {
+			out[i] = x[i]
+		}
+		return out
+	case sstr:
+		return x.b
+	}
+	panic(engineFault{fmt.Sprintf("strBytes: %T", x)})
+}
+
+// mkString builds a string value from bytes (copying); concrete if all bytes are.
+func mkString(b []value) value {
+	conc := true
+	for _, e := range b {
+		if _, ok := e.(uint8); !ok {
+			conc = false
+			break
+		}
+	}
+	if conc {
+		bs := make([]byte, len(b))
+		for i, e := range b {
+			bs[i] = e.(uint8)
+		}
+		return string(bs)
+	}
+	cp := make([]value, len(b))
+	copy(cp, b)
+	return sstr{cp}
+}
+
+// ----------------------------------------------------------------------------
+// maps: ordered association lists
+
+type omap struct {
+	keyT  types.Type
+	keys  []value
+	vals  []value
+	alive []bool // tombstones keep iteration stable under delete during range
+	n     int
+}
+
+func newOmap(keyT types.Type) *omap { return &omap{keyT: keyT} }
+
+func (o *omap) len() int {
+	if o == nil {
+		return 0
+	}
+	return o.n
+}
+
+// find returns the index of key or -1. Equality may fork the path.
+func (m *Machine) omapFind(o *omap, key value) int {
+	if o == nil {
+		return -1
+	}
+	for i := range o.keys {
+		if !o.alive[i] {
+			continue
+		}
+		if m.decide(m.equalsV(o.keyT, o.keys[i], key), "map-key-eq") {
+			return i
+		}
+	}
+	return -1
+}
+
+func (m *Machine) omapGet(o *omap, key value) (value, bool) {
+	i := m.omapFind(o, key)
+	if i < 0 {
+		return nil, false
+	}
+	return o.vals[i], true
+}
+
+func (m *Machine) omapSet(o *omap, key, v value) {
+	if o == nil {
+		panic(targetPanic{m.runtimeErr("assignment to entry in nil map")})
+	}
+	i := m.omapFind(o, key)
+	if i >= 0 {
+		o.vals[i] = v
+		return
+	}
+	o.keys = append(o.keys, key)
+	o.vals = append(o.vals, v)
+	o.alive = append(o.alive, true)
+	o.n++
+}
+
+func (m *Machine) omapDelete(o *omap, key value) {
+	i := m.omapFind(o, key)
+	if i >= 0 {
+		o.alive[i] = false
+		o.n--
+	}
+}
+
+func (o *omap) clone() *omap {
+	if o == nil {
+		return nil
+	}
+	c := &omap{keyT: o.keyT}
+	for i := range o.keys {
+		if o.alive[i] {
+			c.keys = append(c.keys, o.keys[i])
+			c.vals = append(c.vals, copyVal(o.vals[i]))
+			c.alive = append(c.alive, true)
+			c.n++
+		}
+	}
+	return c
+}
+
+type omapIter struct {
+	o     *omap
+	order []int // indices in visiting order (snapshot at Range time)
+	pos   int
+}
+
+func (it *omapIter) next(m *Machine) tuple {
+	for it.pos < len(it.order) {
+		i := it.order[it.pos]
+		it.pos++
+		if i < len(it.o.alive) && it.o.alive[i] {
+			return tuple{true, it.o.keys[i], copyVal(it.o.vals[i])}
+		}
+	}
+	return tuple{false, nil, nil}
+}
+
+type stringIter struct {
+	b []value
+	i int
+}
+
+func (it *stringIter) next(m *Machine) tuple {
+	if it.i >= len(it.b) {
+		return tuple{false, nil, nil}
+	}
+	c, ok := it.b[it.i].(uint8)
+	if !ok {
+		panic(unsupported{"range over string with symbolic bytes"})
+	}
+	if c < 0x80 {
+		r := tuple{true, it.i, rune(c)}
+		it.i++
+		return r
+	}
+	// decode multi-byte rune from concrete bytes
+	var bs []byte
+	for j := it.i; j < len(it.b) && j < it.i+4; j++ {
+		cb, ok := it.b[j].(uint8)
+		if !ok {
+			panic(unsupported{"range over string with symbolic bytes"})
+		}
+		bs = append(bs, cb)
+	}
+	rs := []rune(string(bs))
+	r := rs[0]
+	n := len(string(r))
+	if r == 0xFFFD {
+		n = 1
+	}
+	res := tuple{true, it.i, r}
+	it.i += n
+	return res
+}
+
+// ----------------------------------------------------------------------------
+// copying, load/store
+
+func copyVal(v value) value {
+	switch v := v.(type) {
 	case structure:
-		return x.hash(t)
-	case array:
-		return x.hash(t)
-	case iface:
-		return x.hash(t)
-	case rtype:
-		return x.hash(t)
-	}
-	panic(fmt.Sprintf("unhashable type %v", outer))
-}
-
-// reflect.Value struct values don't have a fixed shape, since the
-// payload can be a scalar or an aggregate depending on the instance.
-// So store (and load) can't simply use recursion over the shape of the
-// rhs value, or the lhs, to copy the value; we need the static type
-// information.  (We can't make reflect.Value a new basic data type
-// because its "structness" is exposed to Go programs.)
-
-// load returns the value of type T in *addr.
-func load(T types.Type, addr *value) value {
-	switch T := T.Underlying().(type) {
-	case *types.Struct:
-		v := (*addr).(structure)
 		a := make(structure, len(v))
-		for i := range a {
-			a[i] = load(T.Field(i).Type(), &v[i])
+		for i := range v {
+			a[i] = copyVal(v[i])
 		}
 		return a
-	case *types.Array:
-		v := (*addr).(array)
+	case array:
 		a := make(array, len(v))
-		for i := range a {
-			a[i] = load(T.Elem(), &v[i])
+		for i := range v {
+			a[i] = copyVal(v[i])
 		}
 		return a
-	default:
-		return *addr
 	}
+	return v
 }
 
-// store stores value v of type T into *addr.
+func load(T types.Type, addr *value) value {
+	return copyVal(*addr)
+}
+
 func store(T types.Type, addr *value, v value) {
-	switch T := T.Underlying().(type) {
-	case *types.Struct:
-		lhs := (*addr).(structure)
-		rhs := v.(structure)
-		for i := range lhs {
-			store(T.Field(i).Type(), &lhs[i], rhs[i])
+	switch rhs := v.(type) {
+	case structure:
+		if lhs, ok := (*addr).(structure); ok && len(lhs) == len(rhs) {
+			for i := range lhs {
+				store(nil, &lhs[i], rhs[i])
+			}
+			return
 		}
-	case *types.Array:
-		lhs := (*addr).(array)
-		rhs := v.(array)
-		for i := range lhs {
-			store(T.Elem(), &lhs[i], rhs[i])
+		*addr = copyVal(rhs)
+	case array:
+		if lhs, ok := (*addr).(array); ok && len(lhs) == len(rhs) {
+			for i := range lhs {
+				store(nil, &lhs[i], rhs[i])
+			}
+			return
 		}
+		*addr = copyVal(rhs)
 	default:
 		*addr = v
 	}
 }
 
-// Prints in the style of built-in println.
-// (More or less; in gc println is actually a compiler intrinsic and
-// can distinguish println(1) from println(interface{}(1)).)
-func writeValue(buf *bytes.Buffer, v value) {
+// ----------------------------------------------------------------------------
+// printing
+
+func writeValue(buf *bytes.Buffer, v value, depth int) {
+	if depth > 6 {
+		buf.WriteString("…")
+		return
+	}
 	switch v := v.(type) {
-	case nil, bool, int, int8, int16, int32, int64, uint, uint8, uint16, uint32, uint64, uintptr, float32, float64, complex64, complex128, string:
+	case nil, bool, int, int8, int16, int32, int64, uint, uint8, uint16, uint32, uint64, uintptr, float32, float64, complex64, complex128:
 		fmt.Fprintf(buf, "%v", v)
-
-	case map[value]value:
+	case string:
+		fmt.Fprintf(buf, "%q", v)
+	case symv:
+		fmt.Fprintf(buf, "<sym %s>", v.t.String())
+	case sstr:
+		fmt.Fprintf(buf, "<sstr len=%d>", len(v.b))
+	case *omap:
 		buf.WriteString("map[")
-		sep := ""
-		for k, e := range v {
-			buf.WriteString(sep)
-			sep = " "
-			writeValue(buf, k)
-			buf.WriteString(":")
-			writeValue(buf, e)
-		}
-		buf.WriteString("]")
-
-	case *hashmap:
-		buf.WriteString("map[")
-		sep := " "
-		for _, e := range v.entries() {
-			for e != nil {
+		if v != nil {
+			sep := ""
+			for i := range v.keys {
+				if !v.alive[i] {
+					continue
+				}
 				buf.WriteString(sep)
 				sep = " "
-				writeValue(buf, e.key)
+				writeValue(buf, v.keys[i], depth+1)
 				buf.WriteString(":")
-				writeValue(buf, e.value)
-				e = e.next
+				writeValue(buf, v.vals[i], depth+1)
 			}
 		}
 		buf.WriteString("]")
-
-	case chan value:
-		fmt.Fprintf(buf, "%v", v) // (an address)
-
+	case *vchan:
+		fmt.Fprintf(buf, "chan@%p", v)
 	case *value:
 		if v == nil {
 			buf.WriteString("<nil>")
 		} else {
-			fmt.Fprintf(buf, "%p", v)
+			fmt.Fprintf(buf, "&")
+			writeValue(buf, *v, depth+1)
 		}
-
 	case iface:
-		fmt.Fprintf(buf, "(%s, ", v.t)
-		writeValue(buf, v.v)
-		buf.WriteString(")")
-
+		if v.t == nil {
+			buf.WriteString("nil")
+		} else {
+			fmt.Fprintf(buf, "(%s)", v.t)
+			writeValue(buf, v.v, depth+1)
+		}
 	case structure:
 		buf.WriteString("{")
 		for i, e := range v {
 			if i > 0 {
 				buf.WriteString(" ")
 			}
-			writeValue(buf, e)
+			writeValue(buf, e, depth+1)
 		}
 		buf.WriteString("}")
-
 	case array:
 		buf.WriteString("[")
 		for i, e := range v {
 			if i > 0 {
 				buf.WriteString(" ")
 			}
-			writeValue(buf, e)
+			writeValue(buf, e, depth+1)
 		}
 		buf.WriteString("]")
-
 	case []value:
 		buf.WriteString("[")
 		for i, e := range v {
 			if i > 0 {
 				buf.WriteString(" ")
 			}
-			writeValue(buf, e)
+			if i > 32 {
+				buf.WriteString("…")
+				break
+			}
+			writeValue(buf, e, depth+1)
 		}
 		buf.WriteString("]")
-
-	case *ssa.Function, *ssa.Builtin, *closure:
-		fmt.Fprintf(buf, "%p", v) // (an address)
-
+	case *ssa.Function:
+		if v == nil {
+			buf.WriteString("func(nil)")
+		} else {
+			buf.WriteString(v.String())
+		}
+	case *ssa.Builtin:
+		buf.WriteString(v.Name())
+	case *closure:
+		buf.WriteString("closure:" + v.Fn.String())
 	case rtype:
 		buf.WriteString(v.t.String())
-
 	case tuple:
-		// Unreachable in well-formed Go programs
 		buf.WriteString("(")
 		for i, e := range v {
 			if i > 0 {
 				buf.WriteString(", ")
 			}
-			writeValue(buf, e)
+			writeValue(buf, e, depth+1)
 		}
 		buf.WriteString(")")
-
 	default:
 		fmt.Fprintf(buf, "<%T>", v)
 	}
 }
 
-// Implements printing of Go values in the style of built-in println.
 func toString(v value) string {
 	var b bytes.Buffer
-	writeValue(&b, v)
-	return b.String()
-}
-
-// ------------------------------------------------------------------------
-// Iterators
-
-type stringIter struct {
-	*strings.Reader
-	i int
-}
-
-func (it *stringIter) next() tuple {
-	okv := make(tuple, 3)
-	ch, n, err := it.ReadRune()
-	ok := err != io.EOF
-	okv[0] = ok
-	if ok {
-		okv[1] = it.i
-		okv[2] = ch
+	writeValue(&b, v, 0)
+	s := b.String()
+	if len(s) > 300 {
+		s = s[:300] + "…"
 	}
-	it.i += n
-	return okv
+	return s
 }
 
-type mapIter struct {
-	iter *reflect.MapIter
-	ok   bool
-}
-
-func (it *mapIter) next() tuple {
-	it.ok = it.iter.Next()
-	if !it.ok {
-		return []value{false, nil, nil}
-	}
-	k, v := it.iter.Key().Interface(), it.iter.Value().Interface()
-	return []value{true, k, v}
-}
-
-type hashmapIter struct {
-	iter *reflect.MapIter
-	ok   bool
-	cur  *entry
-}
-
-func (it *hashmapIter) next() tuple {
-	for {
-		if it.cur != nil {
-			k, v := it.cur.key, it.cur.value
-			it.cur = it.cur.next
-			return []value{true, k, v}
-		}
-		it.ok = it.iter.Next()
-		if !it.ok {
-			return []value{false, nil, nil}
-		}
-		it.cur = it.iter.Value().Interface().(*entry)
-	}
-}
+var _ = strings.Builder{}
+var _ = unsafe.Pointer(nil)
